@@ -220,11 +220,37 @@ class GraphError(Exception):
     """C09 structure violated: undefined key / cycle / planner object inside a task"""
 
 
+def fingerprint(x, depth=0):
+    """Identity of the parts of a task argument that a task must leave alone (C05): symbolic containers are mutable python
+    objects here (SymFrame.__setitem__, `.columns = `, `.index.name = ` change them in place, as pandas does), so a task
+    that modifies an argument changes this value.  Dict literals (the private sub-graph of a fused task) are not data
+    received from another task and are skipped."""
+    from .frame import SymFrame, SymSeries, SymIndex
+
+    if isinstance(x, SymFrame):
+        return ("F", tuple(map(repr, x.labels)), tuple(id(c) for _, c in x.cols), id(x.index_), repr(x.index_.name), tuple(id(v) for v in x.valid))
+    if isinstance(x, SymSeries):
+        return ("S", repr(x.name), id(x.col), id(x.index_), repr(x.index_.name), tuple(id(v) for v in x.valid))
+    if isinstance(x, SymIndex):
+        return ("I", id(x.idx), repr(x.idx.name), tuple(id(v) for v in x.valid))
+    if isinstance(x, pd.DataFrame):
+        return ("PF", tuple(map(repr, x.columns)), tuple(map(repr, x.index.names)), x.shape, tuple(map(str, x.dtypes)))
+    if isinstance(x, pd.Series):
+        return ("PS", repr(x.name), tuple(map(repr, x.index.names)), x.shape, str(x.dtype))
+    if isinstance(x, (list, tuple)) and depth < 4:
+        return tuple(fingerprint(i, depth + 1) for i in x)
+    return None
+
+
 class Interp:
+    track_mutation = False  # C05: compare fingerprint(args) before / after every task call
+    reverse = False  # C05: evaluate arguments and list elements right to left (an adversarial dependency-respecting order)
+
     def __init__(self, dsk, env: Env, parent=None):
         self.dsk, self.env, self.memo, self.parent = dsk, env, {}, parent
         self.active = set()
         self.calls = []  # names of callables executed (for evidence)
+        self.mutations = parent.mutations if parent is not None else []  # (callable name, argument position) pairs
 
     def iskey(self, x):
         try:
@@ -266,8 +292,12 @@ class Interp:
                 if not isinstance(kw, dict):
                     kw = dict(kw)
                 return self.call(fn, list(a), {k: self.lit(v, positional=False) for k, v in kw.items()})
+            if self.reverse:
+                return self.call(f, [self.ev(a) for a in reversed(args)][::-1], {})
             return self.call(f, [self.ev(a) for a in args], {})
         if type(t) is list:
+            if self.reverse:
+                return [self.ev(x) for x in reversed(t)][::-1]
             return [self.ev(x) for x in t]
         if self.iskey(t):
             return self.get(t)
@@ -278,6 +308,19 @@ class Interp:
         return self.lit(t)
 
     def call(self, f, a, kw):
+        if not self.track_mutation:
+            return self._call(f, a, kw)
+        a = list(a)
+        before = [fingerprint(x) for x in a] + [fingerprint(v) for v in kw.values()]
+        held = list(a) + list(kw.values())
+        out = self._call(f, a, kw)
+        after = [fingerprint(x) for x in held]
+        for i, (b, c) in enumerate(zip(before, after)):
+            if b != c:
+                self.mutations.append((getattr(f, "__qualname__", None) or getattr(f, "__name__", None) or repr(f), i))
+        return out
+
+    def _call(self, f, a, kw):
         self.calls.append(getattr(f, "__qualname__", None) or getattr(f, "__name__", None) or repr(f))
         try:
             m = MODELS.get(f)
@@ -373,7 +416,7 @@ def run_graph(expr, env: Env):
     if probs:
         raise GraphError("; ".join(probs[:3]))
     it = Interp(dsk, env)
-    out = [it.get(k) for k in keys]
+    out = [it.get(k) for k in reversed(keys)][::-1] if Interp.reverse else [it.get(k) for k in keys]
     # a partition computed from concrete data only (e.g. the labels of a RangeIndex) comes back as a pandas object
     for i, v in enumerate(out):
         if isinstance(v, np.generic):
